@@ -133,6 +133,39 @@ def run(chk):
                     l.split(' ')[1], i[:140], m[:140]), {'cmd': l, 'impl': i, 'spec': m}, None, True)
         dec_lines += msg_dec
         chk.coverage['transport_messages'] = len(msg_dec)
+        # OpenSSH v01 certificates encoded by the specification (PROTOCOL.certkeys): parsed through the public key variant, the
+        # names of the critical options and extensions (unknown ones included) and the principals must come back in order, and
+        # composing the parsed certificate must give the encoding again
+        from harness import c16
+        from cryptoparser.ssh.key import SshHostPublicKeyVariant
+        cert_cmds = [c16.cert_cmd(rng) for _ in range(12 if chk.tier == 'quick' else 300)]
+        nc = 0
+        for cmd, b in zip(cert_cmds, common.run_model(cert_cmds)):
+            ws = cmd.split(' ')
+            want = {'principals': [] if ws[6] == '-' else [bytes.fromhex(x) for x in ws[6].split(',')],
+                    'critical': [] if ws[9] == '-' else [bytes.fromhex(x.split(':')[0]) for x in ws[9].split('|')],
+                    'extensions': [] if ws[10] == '-' else [bytes.fromhex(x.split(':')[0]) for x in ws[10].split('|')]}
+            blob = bytes.fromhex(b[3:])
+            try:
+                key = SshHostPublicKeyVariant.parse_exact_size(blob)
+
+                def names(items):
+                    out = []
+                    for o in items:
+                        c = bytes(o.compose())
+                        out.append(c[4:4 + int.from_bytes(c[:4], 'big')])
+                    return out
+                got = {'principals': [str(p.value).encode() if hasattr(p, 'value') else bytes(p) for p in key.valid_principals],
+                       'critical': names(key.critical_options), 'extensions': names(key.extensions)}
+                again = bytes(key.compose())
+            except Exception as e:  # pylint: disable=broad-except
+                got, again = 'EXC ' + type(e).__name__, b''
+            dec_lines.append(cmd)
+            if (got != want or again != blob) and nc < 3:
+                nc += 1
+                chk.violation('a conformant ssh-ed25519-cert-v01 certificate: recovered %s, encoded %s; re-composed identically: %s' % (
+                    str(got)[:160], str(want)[:160], again == blob), {'cmd': cmd, 'blob': blob.hex(), 'impl': str(got)}, None, True)
+        chk.coverage['certificates'] = len(cert_cmds)
     else:
         chk.violation('model runner does not build: %s' % br.failed_file, {'error': br.error}, None, False)
     # the padding rule itself, on the implementation, independent of the model
@@ -164,6 +197,17 @@ def replay(path):
     from harness import impl
     with open(path) as f:
         r = json.load(f)
+    if 'blob' in r:
+        from cryptoparser.ssh.key import SshHostPublicKeyVariant
+        blob = bytes.fromhex(r['blob'])
+        try:
+            ok = bytes(SshHostPublicKeyVariant.parse_exact_size(blob).compose()) == blob
+            print('certificate parsed; re-composed identically: %s' % ok)
+        except Exception as e:  # pylint: disable=broad-except
+            print('certificate not accepted: %s' % type(e).__name__)
+            ok = False
+        print('replay: property %s' % ('holds on this input' if ok else 'FAILS on this input'))
+        return 0 if ok else 1
     if 'cmd' not in r:
         print(json.dumps(r, indent=1)[:3000])
         return 1
